@@ -45,7 +45,8 @@ func lineEndOrComment(src []byte, i int) bool {
 const (
 	ReasonBang      = "bang-before-newline"
 	ReasonEllipsis  = "ellipsis-before-newline"
-	ReasonSemiOrder = "semicolon-before-comment"
+	ReasonSemiOrder = "semicolon-before-comment" // a comment begins while a semicolon is pending
+	ReasonLookahead = "lookahead-error-twice"    // same situation, only the error lists differ
 )
 
 // GoLexemesOnly evaluates the C16 domain on the output of the real go/scanner (comments on).
@@ -64,7 +65,7 @@ func GoLexemesOnly(src []byte) []string {
 			reasons = append(reasons, r)
 		}
 	}
-	prevComment := false
+	pend := false // go/scanner's insertSemi before the token
 	for _, t := range res.Toks {
 		tok := gotoken.Token(t.Kind)
 		stop := t.Pos + len(t.Lit)
@@ -90,10 +91,19 @@ func GoLexemesOnly(src []byte) []string {
 			add(ReasonBang)
 		case tok == gotoken.ELLIPSIS && lineEndOrComment(src, stop):
 			add(ReasonEllipsis)
-		case prevComment && tok == gotoken.SEMICOLON && t.Lit == "\n":
+		case tok == gotoken.COMMENT && pend:
 			add(ReasonSemiOrder)
 		}
-		prevComment = tok == gotoken.COMMENT
+		switch tok {
+		case gotoken.COMMENT, gotoken.ILLEGAL:
+			// insertSemi is preserved
+		case gotoken.IDENT, gotoken.INT, gotoken.FLOAT, gotoken.IMAG, gotoken.CHAR, gotoken.STRING,
+			gotoken.BREAK, gotoken.CONTINUE, gotoken.FALLTHROUGH, gotoken.RETURN,
+			gotoken.INC, gotoken.DEC, gotoken.RPAREN, gotoken.RBRACK, gotoken.RBRACE:
+			pend = true
+		default:
+			pend = false
+		}
 	}
 	return reasons
 }
